@@ -32,12 +32,45 @@ Definition show_frame (s : slice) (f : frame) : string :=
     ; "P:" ++ show_view (f_offP f) (frame_payload s f)
     ; "H:" ++ show_bool (frame_has_ip f) ].
 
-Definition show_parse (s : slice) : string :=
-  match parse s with
+Definition show_host (h : option (bytes * bytes)) : string :=
+  match h with
+  | Some (m, ip) => "host:" ++ tok_of_bytes m ++ "/" ++ tok_of_bytes ip
+  | None => "nohost"
+  end.
+
+(* C02 observation: the projection the property constrains *)
+Definition show_parse (c : cfg) (s : slice) : string :=
+  match parse c s with
   | Ok f => show_frame s f
   | Err _ => "err"
   | Panic => "panic"
   | Fuel => "fuel"
+  end.
+
+(* C01 observation: the same plus the position of the two MAC slices (fixed) and the host key *)
+Definition show_parse_full (c : cfg) (s : slice) : string :=
+  match parse c s with
+  | Ok f => join " " [ show_frame s f; "sm:6,6"; "dm:0,6"; show_host (f_host f) ]
+  | Err _ => "err"
+  | Panic => "panic"
+  | Fuel => "fuel"
+  end.
+
+(* does the observation contain a panic (of Parse or of an accessor)? *)
+Definition obs_panics (c : cfg) (s : slice) : bool :=
+  match parse c s with
+  | Ok f => is_panic (frame_ip4 s f) || is_panic (frame_ip6 s f) || is_panic (frame_udp s f)
+            || is_panic (frame_tcp s f) || is_panic (frame_payload s f)
+  | Err _ => false
+  | Panic => true
+  | Fuel => true
+  end.
+
+(* cfg from four tokens: host MAC, router MAC, LAN address, prefix bits *)
+Definition cfg_of_toks (hm rm lan bits : string) : option cfg :=
+  match bytes_of_tok hm, bytes_of_tok rm, bytes_of_tok lan, N_of_dec bits with
+  | Some a, Some b, Some l, Some n => Some (mkCfg a b l n)
+  | _, _, _, _ => None
   end.
 
 (* the same line as the reference decoder expects it for a frame of [n] bytes *)
@@ -68,8 +101,8 @@ Definition show_spec (b : bytes) : string := show_ref (List.length b) (ref_decod
 
 (* pointer-level observation for C16: start offset of every non-nil view (and of the two
    MAC slices) relative to the buffer, and how far it extends *)
-Definition show_alias (s : slice) : string :=
-  match parse s with
+Definition show_alias (c : cfg) (s : slice) : string :=
+  match parse c s with
   | Ok f => join " " [ "ok"; "sm@6"; "dm@0"
                      ; "E:" ++ show_view 0 (frame_ether s f)
                      ; "4:" ++ show_view (f_off4 f) (frame_ip4 s f)
